@@ -194,6 +194,9 @@ type gx struct {
 	leaves map[string]bool
 
 	fromSubq bool // a FROM-subquery was generated
+	wn       bool   // the case's without_null attribute of the companion files
+	pos      string // delimiter positions of the fixed-length companion file
+	narrow   bool   // only the columns of the fixed-length file (id g i f k b) exist
 }
 
 func newGx(t *rapid.T, uses, leaves map[string]bool) *gx {
@@ -250,6 +253,9 @@ func (g *gx) leaf(ty byte) string {
 	case 'k':
 		vars, curs, cells, params = []string{"@vk"}, []string{"@ck"}, []string{"k"}, g.pK
 	}
+	if g.narrow && (ty == 's' || ty == 'd') {
+		cells = nil
+	}
 	srcs := []src{{"lit", 25, nil}}
 	if !g.noVars {
 		srcs = append(srcs, src{"var", 20, vars})
@@ -290,12 +296,9 @@ func (g *gx) leaf(ty byte) string {
 			g.using = append(g.using, v+" AS "+name)
 			return ":" + name
 		}
-		// positional values are consumed in order of appearance: keep them in front of the named ones
-		pos := 0
-		for pos < len(g.using) && !strings.Contains(g.using[pos], " AS ph") {
-			pos++
-		}
-		g.using = append(g.using[:pos], append([]string{v}, g.using[pos:]...)...)
+		// a positional placeholder takes the value at its own ordinal among ALL placeholders of the statement
+		// (named ones included): the values are listed in the order in which the placeholders appear in the text
+		g.using = append(g.using, v)
 		return "?"
 	}
 	return g.pick(s.kind, s.txt)
@@ -318,7 +321,7 @@ func (g *gx) special(ty byte) string {
 	case 'Q':
 		return quote(g.pick("jq", poolQuery))
 	case 'J':
-		if g.cols && g.pct("jcell", 50) {
+		if g.cols && !g.narrow && g.pct("jcell", 50) {
 			g.leaves["cell"] = true
 			return g.col("j")
 		}
@@ -692,7 +695,70 @@ func (g *gx) fields(n int, d int) string {
 }
 
 func fromSrc(g *gx, label string) string {
+	if g.pct(label+"Obj", 35) {
+		return g.tableObject(g.pick(label+"ObjKind", []string{"csv", "tsv", "ltsv", "json", "jsonl"}))
+	}
 	return g.pick(label, []string{"t", "tt"})
+}
+
+// spell renders an argument of a table object as a literal, a variable or an expression with the same value.
+func (g *gx) spell(label, lit, variable, expr string) string {
+	switch fw.Uniform(g.t, label, 3) {
+	case 0:
+		g.leaves["tblobj_literal"] = true
+		return lit
+	case 1:
+		g.leaves["tblobj_variable"] = true
+		return variable
+	}
+	g.leaves["tblobj_expression"] = true
+	return expr
+}
+
+func boolWord(b bool) string {
+	if b {
+		return "TRUE"
+	}
+	return "FALSE"
+}
+
+// tableObject renders a format-specified table object over t.csv or one of the companion files (same rows in
+// another format). The attributes always have the same meaning (UTF8, with header, the case's without_null): a file
+// is loaded once per session, so that only the spelling of the arguments and their number vary.
+func (g *gx) tableObject(kind string) string {
+	g.uses["src:"+kind+"_object"] = true
+	enc := func() string { return g.spell("encSp", "'UTF8'", "@venc", g.pick("encEx", []string{"('UT' || 'F8')", "UPPER('utf8')"})) }
+	nh := func() string { return g.spell("nhSp", "FALSE", "@vnh", "(1 = 2)") }
+	wn := func() string {
+		if g.wn {
+			return g.spell("wnSp", "TRUE", "@vwn", "(1 = 1)")
+		}
+		return g.spell("wnSp", "FALSE", "@vwn", "(1 = 2)")
+	}
+	opt := func(fs ...func() string) string {
+		n := fw.Uniform(g.t, "nObjArgs", len(fs)+1)
+		if g.wn {
+			n = len(fs) // a without_null that is not written would mean FALSE
+		}
+		s := ""
+		for i := 0; i < n; i++ {
+			s += ", " + fs[i]()
+		}
+		return s
+	}
+	switch kind {
+	case "csv":
+		return "CSV(" + g.spell("dlSp", "','", "@vdl", "SUBSTR(',;', 0, 1)") + ", `t.csv`" + opt(enc, nh, wn) + ")"
+	case "tsv":
+		return "CSV(" + g.spell("tabSp", "'\\t'", "@vtab", "('' || '\\t')") + ", `tx.tsv`" + opt(enc, nh, wn) + ")"
+	case "ltsv":
+		return "LTSV(`tx.ltsv`" + opt(enc, wn) + ")"
+	case "json":
+		return "JSON(" + g.spell("jqSp", "''", "@vjq", "('' || '')") + ", `tx.json`)"
+	case "jsonl":
+		return "JSONL(" + g.spell("jqSp", "''", "@vjq", "('' || '')") + ", `tx.jsonl`)"
+	}
+	return "FIXED(" + g.spell("posSp", "'"+g.pos+"'", "@vpos", "('[' || '"+g.pos[1:]+"')") + ", `tx.txt`" + opt(enc, nh, wn) + ")"
 }
 
 // genStmt draws a pure statement. pid is the alias given to the id column of periodic statements.
@@ -728,6 +794,44 @@ func genStmt(g *gx, pid string, kinds []string) stmt {
 		}
 		g.subq = false
 		return stmt{sql: s + ";", periodic: true}
+	case "rows_fixed":
+		// the fixed-length companion file carries the ASCII columns only
+		g.cols, g.narrow = true, true
+		src := g.tableObject("fixed")
+		s := "SELECT id AS " + pid + ", " + g.fields(nf, d) + " FROM " + src
+		if g.pct("where", 35) {
+			g.budget = 6
+			s += " WHERE " + g.expr('b', 2)
+		}
+		g.narrow = false
+		return stmt{sql: s + " ORDER BY id;", periodic: true}
+	case "nested_same":
+		// the same table in the outer query and in subqueries, self-joins whose aliases come back in a subquery,
+		// an inline table referenced several times
+		g.cols = true
+		src := fromSrc(g, "src")
+		switch fw.Uniform(g.t, "nestedShape", 4) {
+		case 0:
+			inner := src
+			if strings.Contains(src, "(") {
+				inner = g.pick("nestedInner", []string{"t", "tt"})
+			}
+			return stmt{sql: "SELECT id AS " + pid + ", " + g.fields(1, d) + ", (SELECT COUNT(*) FROM " + inner + " WHERE g = 1) FROM " + src +
+				" WHERE id IN (SELECT id FROM " + inner + " WHERE k < " + g.pick("nestedK", []string{"2", "3", "5"}) + ") ORDER BY id;", periodic: true}
+		case 1:
+			g.quals = []string{"a.", "b."}
+			f := g.fields(nf, d)
+			g.quals = nil
+			return stmt{sql: "SELECT a.id AS " + pid + ", " + f + ", (SELECT MAX(a.i) FROM " + src + " a WHERE a.g = b.g) FROM " + src + " a JOIN " + src +
+				" b ON a.id = b.id ORDER BY " + pid + ";", periodic: true}
+		case 2:
+			inner := g.fields(1, d)
+			return stmt{sql: "WITH c AS (SELECT id, g, k, " + inner + " AS c1 FROM " + src + ") SELECT c.id AS " + pid + ", c.c1, c2.c1 FROM c JOIN c c2 ON c.id = c2.id" +
+				" WHERE c.g IN (SELECT g FROM c WHERE k < 4) ORDER BY " + pid + ";", periodic: true}
+		}
+		inner := g.fields(1, d)
+		return stmt{sql: "WITH c AS (WITH c AS (SELECT id, g, " + inner + " AS c1 FROM " + src + ") SELECT id, g, c1 FROM c) SELECT id AS " + pid +
+			", c1, (SELECT COUNT(*) FROM c WHERE g = 0) FROM c ORDER BY id;", periodic: true}
 	case "group":
 		g.cols = true
 		src := fromSrc(g, "src")
@@ -783,13 +887,12 @@ func genStmt(g *gx, pid string, kinds []string) stmt {
 		g.quals = []string{"a.", "b."}
 		left, right := fromSrc(g, "jl"), fromSrc(g, "jr")
 		jt := g.pick("jointype", []string{"JOIN", "LEFT JOIN", "JOIN", "RIGHT JOIN", "FULL JOIN"})
-		s := "SELECT a.id AS " + pid + ", " + g.fields(nf, d) + " FROM " + left + " a " + jt + " " + right + " b ON a.id = b.id"
+		var s string
 		if g.pct("joinUsing", 25) {
-			g.quals = nil
-			g.qual = ""
 			// USING merges the id columns; the other columns stay qualified
-			g.quals = []string{"a.", "b."}
 			s = "SELECT id AS " + pid + ", " + g.fields(nf, d) + " FROM " + left + " a JOIN " + right + " b USING (id)"
+		} else {
+			s = "SELECT a.id AS " + pid + ", " + g.fields(nf, d) + " FROM " + left + " a " + jt + " " + right + " b ON a.id = b.id"
 		}
 		g.quals = nil
 		return stmt{sql: s + " ORDER BY " + pid + ";", periodic: true}
@@ -811,9 +914,10 @@ func genStmt(g *gx, pid string, kinds []string) stmt {
 	case "orderby":
 		g.cols = true
 		src := fromSrc(g, "src")
+		fields := g.fields(nf, d) // (generated in the order of the text: placeholders are numbered by position)
 		g.budget = 5
 		key := g.expr('n', 2)
-		s := "SELECT id, " + g.fields(nf, d) + " FROM " + src + " ORDER BY " + key + g.pick("dir", []string{"", " DESC", " ASC NULLS LAST"}) + ", INTEGER(id)"
+		s := "SELECT id, " + fields + " FROM " + src + " ORDER BY " + key + g.pick("dir", []string{"", " DESC", " ASC NULLS LAST"}) + ", INTEGER(id)"
 		if g.pct("limit", 60) {
 			s += " LIMIT " + g.pick("limit", []string{"3", "5", "(1 + 2)", "@vk + 1"})
 			if g.pct("offset", 40) {
@@ -892,14 +996,45 @@ type unit struct {
 	PrepText string   `json:"prep_text,omitempty"`
 	Inner    string   `json:"inner,omitempty"`    // name of the segment printed inside the function body
 	FromSubq bool     `json:"from_subquery,omitempty"` // contains a FROM-subquery
+	Fails    []string `json:"fails,omitempty"`         // failing statements executed between the repetitions
 }
 
-var topKinds = []string{"print", "select_nofrom", "rows", "rows", "group", "analytic", "from_subquery", "join", "union", "cte", "orderby"}
+var topKinds = []string{"print", "select_nofrom", "rows", "rows", "group", "analytic", "from_subquery", "join", "union", "cte", "orderby", "rows_fixed", "nested_same", "nested_same"}
+
+// statements that fail, each in another phase of the evaluation; they read only
+var failingStmts = []string{
+	"SELECT id FROM t LIMIT 'abc';",
+	"SELECT id FROM tt ORDER BY id LIMIT 'abc';",
+	"SELECT id FROM t ORDER BY id LIMIT 1 OFFSET 'abc';",
+	"SELECT id FROM tt LIMIT 'x' PERCENT;",
+	"SELECT id FROM t x WHERE EXISTS (SELECT 1 FROM t y WHERE y.id = x.id LIMIT 'abc');",
+	"SELECT id FROM (SELECT id FROM t LIMIT 'abc') x;",
+	"SELECT id FROM t WHERE 1 / 0 = 1;",
+	"SELECT nocol FROM t;",
+	"SELECT 1 FROM notable;",
+	"SELECT id, (SELECT x.id FROM t x) FROM t;",
+	"SELECT id FROM t WHERE id IN (SELECT id, g FROM tt);",
+	"SELECT TITLE_CASE(NULL) FROM t;",
+	"SELECT REGEXP_MATCH(s, '(') FROM tt;",
+	"SELECT id, NTILE(0) OVER (ORDER BY id) FROM t;",
+	"SELECT SUM(i), id FROM tt;",
+	"WITH c AS (SELECT nocol FROM t) SELECT * FROM c;",
+	"SELECT id FROM t UNION SELECT id, g FROM tt;",
+	"SELECT a.id FROM t a JOIN tt a ON a.id = a.id;",
+	"SELECT COUNT(*) FROM t GROUP BY nocol;",
+	"SELECT id FROM tt ORDER BY nocol;",
+	"SELECT id FROM CSV(',', `t.csv`, 'NOENC');",
+	"SELECT nofunc(1);",
+	"EXECUTE nostmt;",
+	"FETCH nocur INTO @q1;",
+	"SELECT @undeclared;",
+}
 
 const fnParams = "@pa, @pb, @pc, @pe"
 
-func genUnit(t *rapid.T, idx int, uses, leaves map[string]bool) unit {
+func genUnit(t *rapid.T, idx int, uses, leaves map[string]bool, wn bool, pos string) unit {
 	g := newGx(t, uses, leaves)
+	g.wn, g.pos = wn, pos
 	u := unit{Reps: 2 + fw.Uniform(t, "reps", 2), Churn: fw.Pct(t, "churn", 40)}
 	pid := fmt.Sprintf("pid%d", idx)
 	name := fmt.Sprintf("u%d", idx)
@@ -1001,16 +1136,44 @@ func genUnit(t *rapid.T, idx int, uses, leaves map[string]bool) unit {
 		u.Body = fmt.Sprintf("OPEN c%d;\nWHILE @x1, @x2, @x3, @x4, @x5 IN c%d DO\nPRINT %s;\nPRINT %s;\nEND WHILE;\nCLOSE c%d;", idx, idx, e1, e2, idx)
 	}
 	u.FromSubq = g.fromSubq
+	if u.Kind != "while" && fw.Pct(t, "fails", 45) {
+		// (a WHILE loop does not survive an error; every other kind is repeated by separate top-level statements)
+		uses["error_then_repeat"] = true
+		for i, n := 0, 1+fw.Uniform(t, "nfails", 3); i < n; i++ {
+			if fw.Pct(t, "failLimit", 35) {
+				u.Fails = append(u.Fails, failingStmts[fw.Uniform(t, "failLimitIdx", 6)])
+			} else {
+				u.Fails = append(u.Fails, fw.PickU(t, "fail", failingStmts))
+			}
+		}
+	}
 	return u
 }
 
 // genTail draws the statements that use the cached tables after the reading section.
-func genTail(t *rapid.T) []string {
+func genTail(t *rapid.T, wn bool, pos string) []string {
 	lit := func(label string) string { return quote(fw.PickU(t, label, poolStr)) }
 	n := 1 + fw.Uniform(t, "ntail", 3)
-	var out []string
+	var out, after []string
+	g := newGx(t, map[string]bool{}, map[string]bool{})
+	g.wn, g.pos = wn, pos
 	for i := 0; i < n; i++ {
 		tbl := fw.PickU(t, "tailTbl", []string{"t", "t", "tt"})
+		if fw.Pct(t, "tailObj", 35) {
+			// a table object as the target: the file it names is read back afterwards
+			kind := fw.PickU(t, "tailObjKind", []string{"csv", "tsv", "ltsv", "json", "jsonl", "fixed"})
+			tbl = g.tableObject(kind)
+			file := map[string]string{"csv": "`t.csv`", "tsv": "`tx.tsv`", "ltsv": "`tx.ltsv`", "json": "`tx.json`", "jsonl": "`tx.jsonl`", "fixed": "`tx.txt`"}[kind]
+			after = append(after, "SELECT * FROM "+file+";")
+			if kind == "fixed" {
+				if fw.Pct(t, "fixedDel", 50) {
+					out = append(out, fmt.Sprintf("DELETE FROM %s WHERE g = %d;", tbl, fw.Uniform(t, "delG", 3)))
+				} else {
+					out = append(out, fmt.Sprintf("UPDATE %s SET i = i + 1, f = NULL WHERE k = %d;", tbl, fw.Uniform(t, "updK", 6)))
+				}
+				continue
+			}
+		}
 		switch fw.Uniform(t, "tailKind", 5) {
 		case 0:
 			out = append(out, fmt.Sprintf("UPDATE %s SET s = %s WHERE g = %d;", tbl, lit("updS"), fw.Uniform(t, "updG", 3)))
@@ -1024,5 +1187,5 @@ func genTail(t *rapid.T) []string {
 			out = append(out, fmt.Sprintf("SELECT COUNT(*), MAX(INTEGER(id)), MIN(s) FROM %s;", tbl))
 		}
 	}
-	return out
+	return append(out, after...)
 }
